@@ -138,13 +138,17 @@ Definition step (s : st) (o : op) : st * res :=
     | None => (s, RInvalid)
     end
   | Send b =>
-    (* marshal::marshal: UNIX_FDS = msg.body.get_fds().len() (field omitted when 0);
+    (* send_message -> marshal::marshal -> marshal_header:
+         if !msg.body.get_fds().is_empty() {
+           if msg.body.get_raw_fds().len() != msg.body.get_fds().len() { return Err(EmptyUnixFd) }   (a handle was taken)
+           UNIX_FDS = msg.body.get_fds().len() }                                  (field omitted when 0)
        write_once: if bytes_sent == 0 { msg.body.get_raw_fds() } else { vec![] } in ScmRights;
        the handles of the body stay where they are *)
     match lookup_b s b with
     | Some bd =>
       let raw := get_raw_fds s bd in
-      if SCM_MAX_FD <? len raw then (s, RErr)
+      if negb (len raw =? len (bfds bd)) then (s, RErr)
+      else if SCM_MAX_FD <? len raw then (s, RErr)
       else
         let ofds := ofds_of s raw in
         (emit (EvSend (len (bfds bd)) ofds) (set_wire (wire s ++ [(ofds, bidx bd)]) s),
